@@ -176,7 +176,7 @@ class Recorder:
 FRAGMENTS = ['pass', 'word', 'Word', 'PASS', 'love', 'monkey', 'a', 'Ab', 'x', '1', '12', '123', '2019', '1987', '20199', '007',
              '!', '!!', ' ', '#1', '<3', 'No.1', 'Mr.', '*0*', ';p', 'qwer', '1qaz', 'zaq1', 'asdf', 'qwerty', '!@#$', 'йцук',
              '.com', 'www.', 'google.com', 'bob@aol.com', '@', '.', 'http://', '/', 'Admin', '#A', '_ROOT', 'é', 'ß', 'ǅ', 'Я', 'пароль', '٣', '²',
-             '\U0001F600', 'e', 'r', 'ty', 'tty', '20', '19', '99', '07']
+             '\U0001F600', 'e', 'r', 'ty', 'tty', '20', '19', '99', '07', '.org', '.net', 'ics', 'munity', 'www.com']
 
 
 def random_password(rng, with_dotted_i=False):
